@@ -48,15 +48,40 @@ inductive TypeRef where
   | nonNull (t : TypeRef)
   deriving DecidableEq, Repr, Inhabited
 
-/-- Go values a resolver can return at a leaf position. `flt m e` is the float64 `m·2^e` (the harness
-    sends it normalised: `m` odd, or `0 0`); `wrong` is a value of a kind no coercer accepts. -/
+/-- the Go integer kinds a resolver may return (`int`/`uint` are 64 bit on the platforms considered) -/
+inductive IntKind where
+  | i8 | u8 | i16 | u16 | i32 | u32 | i64 | u64 | int | uint
+  deriving DecidableEq, Repr, Inhabited
+
+inductive FltKind where
+  | f32 | f64
+  deriving DecidableEq, Repr, Inhabited
+
+/-- Go values a resolver can return at a leaf position. `int k z` is the value of Go type `k` denoted by
+    `z` (the harness sends `z` within the range of `k`; out of range it denotes `k.wrap z`, as Go's
+    conversion would). `flt k m e` is the float `m·2^e` of type `k` (finite; the harness sends it
+    normalised: `m` odd, or `0 0`; a float32 is exactly a float64). Two values are the same Go value
+    (`==` on `interface{}`) only if their kinds agree. `wrong` is a value of a kind no coercer accepts. -/
 inductive GoVal where
-  | int (z : Int)
-  | flt (m e : Int)
+  | int (k : IntKind) (z : Int)
+  | flt (k : FltKind) (m e : Int)
   | str (s : String)
   | bool (b : Bool)
   | wrong
   deriving DecidableEq, Repr, Inhabited
+
+/-- the value of Go type `k` that `z` denotes (two's-complement wrap-around) -/
+def IntKind.wrap : IntKind → Int → Int
+  | .i8, z => (z + 128) % 256 - 128
+  | .u8, z => z % 256
+  | .i16, z => (z + 32768) % 65536 - 32768
+  | .u16, z => z % 65536
+  | .i32, z => (z + 2147483648) % 4294967296 - 2147483648
+  | .u32, z => z % 4294967296
+  | .i64, z => (z + 9223372036854775808) % 18446744073709551616 - 9223372036854775808
+  | .u64, z => z % 18446744073709551616
+  | .int, z => (z + 9223372036854775808) % 18446744073709551616 - 9223372036854775808
+  | .uint, z => z % 18446744073709551616
 
 inductive ScalarKind where
   | int | float | string | boolean | id
@@ -365,20 +390,47 @@ def fltToInt? (m e : Int) : Option Int :=
 
 def inInt32 (z : Int) : Bool := minInt32 ≤ z && z ≤ maxInt32
 
+def maxInt64 : Int := 9223372036854775807
+
+/-- Go's `float64(v)` of an integer: IEEE-754 round to nearest, ties to even, as `(m, e)` with the
+    result `m·2^e`. Exact below 2^53. -/
+def roundF64 (z : Int) : Int × Int :=
+  let a := z.natAbs
+  if a < 2 ^ 53 then (z, 0) else
+  let sh := Nat.log2 a + 1 - 53
+  let q := a / 2 ^ sh
+  let r := a % 2 ^ sh
+  let half := 2 ^ (sh - 1)
+  let q' := if r > half || (r == half && q % 2 == 1) then q + 1 else q
+  (if z < 0 then -(q' : Int) else (q' : Int), (sh : Int))
+
+/-- `coerceInt` for the integer kinds, case by case as in builtins.go -/
+def coerceIntKind (k : IntKind) (v : Int) : Option Json :=
+  match k with
+  | .i8 | .u8 | .i16 | .u16 | .i32 => some (.int v)                       -- `return int(v)`
+  | .u32 | .u64 | .uint => if v ≤ maxInt32 then some (.int v) else none    -- `if v <= math.MaxInt32`
+  | .i64 | .int => if inInt32 v then some (.int v) else none               -- `v >= MinInt32 && v <= MaxInt32`
+
+/-- the ID `ResultCoercion` for the integer kinds -/
+def coerceIdKind (k : IntKind) (v : Int) : Option Json :=
+  match k with
+  | .u64 | .uint => if v ≤ maxInt64 then some (.str (toString v)) else none   -- `if v <= math.MaxInt64`
+  | _ => some (.str (toString v))                                              -- `strconv.FormatInt(int64(v), 10)`
+
 def coerceScalar (k : ScalarKind) (g : GoVal) : Option Json :=
   match k, g with
   | .int, .bool b => some (.int (if b then 1 else 0))
-  | .int, .int z => if inInt32 z then some (.int z) else none
-  | .int, .flt m e =>
+  | .int, .int ik z => coerceIntKind ik (ik.wrap z)
+  | .int, .flt _ m e =>                     -- float32 goes through `coerceInt(float64(v))`
     match fltToInt? m e with
     | some z => if inInt32 z then some (.int z) else none
     | none => none
   | .float, .bool b => some (.num (if b then 1 else 0) 0)
-  | .float, .int z => some (.num z 0)        -- exact for |z| ≤ 2^53 (generator bound; Go rounds beyond)
-  | .float, .flt m e => some (.num m e)
+  | .float, .int ik z => some (.num (roundF64 (ik.wrap z)).1 (roundF64 (ik.wrap z)).2)   -- `float64(v)`
+  | .float, .flt _ m e => some (.num m e)   -- finite (non-finite floats are not in the value domain: C03)
   | .string, .str s => some (.str s)
   | .boolean, .bool b => some (.bool b)
-  | .id, .int z => some (.str (toString z))
+  | .id, .int ik z => coerceIdKind ik (ik.wrap z)
   | .id, .str s => some (.str s)
   | _, _ => none
 
